@@ -10,4 +10,208 @@ package parser
 //@ wf elems
 //@ default opaque
 
+// The only value the lexer goroutine panics with is the bail-out sentinel,
+// and run's deferred handler absorbs exactly that (under both panicnil
+// settings: the sentinel is not nil).
 //@ panicclass bailout value == errBailout
+
+// A lexer has its reader; an alias on the stack has its value reader.
+//@ wf lexer: self.r != nil
+//@ wf alias: self.value != nil
+
+// ---- the goyacc driver is generated code and trusted (DESIGN 2.7) ----
+//@ func (*yyParserImpl).Parse
+//@   skip goyacc driver loop and tables: trusted generator output
+//@ func (*yyParserImpl).Lookahead
+//@   skip goyacc driver
+//@ func yyParse
+//@   skip goyacc driver
+//@ func yyNewParser
+//@   skip goyacc driver
+//@ func yylex1
+//@   skip goyacc driver (token translation tables)
+//@ func yyErrorMessage
+//@   skip goyacc driver (error message tables)
+//@ func yyStatname
+//@   skip goyacc driver
+//@ func yyTokname
+//@   skip goyacc driver
+//@ func init#1
+//@   skip package initialiser (token names)
+
+// ---- lexer ----
+
+// tokready: the lexer holds nothing, or a single literal (a reserved word),
+// which is what emit needs for a token that is not a word.
+//@ spec func tokready(l *lexer) bool = len(l.word) == 0 || l.word[0] is *ast.Lit
+//@ spec func tokword(l *lexer, tok int) bool = (tok == WORD ==> len(l.word) >= 1) && (tok == IO_NUMBER ==> len(l.word) == 1 && l.word[0] is *ast.Lit) && (tok != WORD && tok != IO_NUMBER && tok >= 0 ==> len(l.word) == 0)
+
+//@ func newLexer
+//@   nilok env
+//@   requires r != nil
+//@   ensures result != nil
+
+//@ func (*lexer).Lex
+//@   requires lval != nil
+
+// Error is called by the generated parser after at least one Lex, which has
+// stored a position; that is a fact about the driver, not about this code.
+//@ func (*lexer).Error
+//@   waive assert "l.last.Load().(ast.Pos)" the value was stored by Lex or scanCmdSubst; that Error is only called after a Store is a property of the goyacc driver
+
+//@ func (*lexer).run
+//@   recovers bailout
+//@ func (*lexer).run$1
+//@   recovers bailout
+
+//@ func (*lexer).emit
+//@   maypanic bailout
+//@   requires typ == IO_NUMBER || typ == WORD || typ == NAME || typ == ASSIGNMENT_WORD || tokready(l)
+//@   ensures len(l.word) == 0
+
+// What a scanned token says about the pending word: a word token has parts,
+// an IO_NUMBER is one literal, anything else (operator, newline, EOF) leaves
+// no pending word.
+//@ func (*lexer).scanRaw
+//@   ensures result == WORD ==> len(l.word) >= 1
+//@   ensures result == IO_NUMBER ==> len(l.word) == 1 && l.word[0] is *ast.Lit
+//@   ensures result != WORD && result != IO_NUMBER && result >= 0 ==> len(l.word) == 0
+//@ func (*lexer).scanRawToken
+//@   ensures result == WORD ==> len(l.word) >= 1
+//@   ensures result == IO_NUMBER ==> len(l.word) == 1 && l.word[0] is *ast.Lit
+//@   ensures result != WORD && result != IO_NUMBER && result >= 0 ==> len(l.word) == 0
+//@ func (*lexer).scanToken
+//@   ensures result == WORD ==> len(l.word) >= 1
+//@   ensures result == IO_NUMBER ==> len(l.word) == 1 && l.word[0] is *ast.Lit
+//@   ensures result != WORD && result != IO_NUMBER && result >= 0 ==> len(l.word) == 0
+//@ func (*lexer).scanRedir
+//@   ensures result == WORD ==> len(l.word) >= 1
+//@   ensures result == IO_NUMBER ==> len(l.word) == 1 && l.word[0] is *ast.Lit
+//@   ensures result != WORD && result != IO_NUMBER && result >= 0 ==> len(l.word) == 0
+//@ func (*lexer).scanArithExpr
+//@   ensures result == RAE || result == -1
+//@ func (*lexer).scanOp
+//@   requires r == '&' || r == '(' || r == ')' || r == ';' || r == '<' || r == '>' || r == '|'
+//@   ensures result > 0 && result != WORD && result != IO_NUMBER && len(l.word) == old(len(l.word))
+//@ func (*lexer).lit
+//@   ensures len(l.word) >= old(len(l.word))
+
+// The state functions that start by emitting the token they were chosen for.
+//@ func (*lexer).lexToken
+//@   requires tok == WORD || tok == IO_NUMBER || tok <= 0 || tokready(l)
+//@ func (*lexer).lexCmd
+//@   requires tok == WORD ==> len(l.word) >= 1
+//@   requires tok == IO_NUMBER ==> len(l.word) == 1 && l.word[0] is *ast.Lit
+//@   requires tok != WORD && tok != IO_NUMBER && tok >= 0 ==> len(l.word) == 0
+//@ func (*lexer).onCmdSuffix
+//@   requires tok == WORD ==> len(l.word) >= 1
+//@   requires tok == IO_NUMBER ==> len(l.word) == 1 && l.word[0] is *ast.Lit
+//@   requires tok != WORD && tok != IO_NUMBER && tok >= 0 ==> len(l.word) == 0
+//@ func (*lexer).lexSimpleCmd
+//@   requires len(l.word) >= 1
+//@ func (*lexer).lexSubshell
+//@   requires tokready(l)
+//@ func (*lexer).lexGroup
+//@   requires tokready(l)
+//@ func (*lexer).lexArithEval
+//@   requires tokready(l)
+//@ func (*lexer).lexFor
+//@   requires tokready(l)
+//@   loop "for" invariant len(l.word) == 0
+//@ func (*lexer).lexCase
+//@   requires tokready(l)
+//@ func (*lexer).lexCaseBreak
+//@   requires tokready(l)
+//@ func (*lexer).lexIf
+//@   requires tokready(l)
+//@ func (*lexer).lexElif
+//@   requires tokready(l)
+//@ func (*lexer).lexThen
+//@   requires tokready(l)
+//@ func (*lexer).lexElse
+//@   requires tokready(l)
+//@ func (*lexer).lexWhile
+//@   requires tokready(l)
+//@ func (*lexer).lexUntil
+//@   requires tokready(l)
+//@ func (*lexer).lexDo
+//@   requires tokready(l)
+//@ func (*lexer).lexFuncDef
+//@   requires tokready(l)
+
+//@ func (*lexer).tr
+//@   ensures result != tok ==> len(l.word) == 1 && l.word[0] is *ast.Lit
+//@   preserves *
+
+//@ func (*lexer).isAssign
+//@   requires len(l.word) >= 1
+
+// An alias is substituted only when subst says so; otherwise the pending word stays.
+//@ func (*lexer).subst
+//@   ensures !result ==> l.word == old(l.word)
+//@   ensures result ==> len(l.word) == 0
+
+//@ func (*lexer).lexCaseItem
+//@   loop "for" invariant tokword(l, tok)
+// Here-document bodies are read with no token pending, and each body ends
+// with the pending word handed over to its redirection.
+//@ func (*lexer).lexHeredoc
+//@   requires len(l.word) == 0
+//@   loop "for h := l.heredoc.pop(); h != nil; h = l.heredoc.pop()" invariant len(l.word) == 0
+
+//@ func (*lexer).read
+//@   loop "for i := len(l.aliases) - 1; i >= 0; i--" invariant i < len(l.aliases)
+
+//@ func (*lexer).lexHeredoc$1
+//@   loop "for i := len(l.word) - 1; i >= 0; i--" invariant i < len(l.word)
+
+// The nested parse of a command substitution returned without an error: the
+// grammar then guarantees one command that is a subshell or an arithmetic
+// evaluation; this is a property of the LALR automaton, not of this function.
+//@ func (*lexer).scanCmdSubst
+//@   waive bounds "ll.cmds[0]" needs the grammar-level fact that an accepted substitution yields exactly one command
+//@   waive assert "ll.cmds[0].(*ast.Cmd)" needs the grammar-level fact that an accepted substitution yields a *ast.Cmd
+
+//@ func assign
+//@   requires len(w) >= 1 && w[0] is *ast.Lit && len(w[0].(*ast.Lit).Value) >= 1
+//@   ensures result != nil
+
+//@ func extract
+//@   requires cmd != nil
+
+//@ func open
+//@   ensures err == nil ==> r != nil
+
+// ---- grammar symbols: what a value of each kind holds (the parser's side of wf) ----
+
+//@ symbol and_or: v.node is *ast.AndOrList && v.node.(*ast.AndOrList) != nil
+//@ symbol pipeline, pipe_seq: v.node is *ast.Pipeline && v.node.(*ast.Pipeline) != nil
+//@ symbol cmd, func_def: v.node is *ast.Cmd && v.node.(*ast.Cmd) != nil
+//@ symbol func_body: v.node is *ast.FuncDef && v.node.(*ast.FuncDef) != nil
+//@ symbol simple_cmd, cmd_prefix, cmd_suffix: v.elt != nil
+//@ symbol compound_cmd, subshell, group, arith_eval, for_clause, case_clause, if_clause, while_clause, until_clause: v.node is ast.CmdExpr
+//@ symbol complete_cmd, list: v.list is ast.List && len(v.list.(ast.List)) >= 1
+//@ symbol term: v.list is []ast.Command && len(v.list.([]ast.Command)) >= 1 && v.list.([]ast.Command)[len(v.list.([]ast.Command))-1] is ast.List
+//@ symbol compound_list: v.list is []ast.Command && len(v.list.([]ast.Command)) >= 1
+//@ symbol word_list, pattern_list: v.list is []ast.Word
+//@ symbol case_list, case_list_ns: v.list is []*ast.CaseItem
+//@ symbol case_item, case_item_ns: v.node is *ast.CaseItem && v.node.(*ast.CaseItem) != nil
+//@ symbol else_part: v.list is []ast.ElsePart
+//@ symbol redir_list: v.list is []*ast.Redir
+//@ symbol io_redir, io_file, io_here: v.node is *ast.Redir && v.node.(*ast.Redir) != nil
+//@ symbol NAME, IO_NUMBER: len(v.word) >= 1 && v.word[0] is *ast.Lit && v.word[0].(*ast.Lit) != nil
+//@ symbol ASSIGNMENT_WORD: len(v.word) >= 1 && v.word[0] is *ast.Lit && v.word[0].(*ast.Lit) != nil && len(v.word[0].(*ast.Lit).Value) >= 1
+
+//@ action *
+//@   props C01
+//@   requires yylex is *lexer && yylex.(*lexer) != nil
+//@   requires yypt >= $K && yypt + 1 <= len(yyS)
+//@   requires yyVAL == $1
+
+// A function body is built before its name is known: the FuncDef node of a
+// func_body value has no Name yet; func_def completes it in the same reduction
+// sequence, before the node becomes reachable from a command.
+//@ action func_body: compound_cmd
+//@   waive wf "ast.FuncDef holds" Name is filled in by the func_def action, which is checked to establish the invariant
+//@ action func_body: compound_cmd redir_list
+//@   waive wf "ast.FuncDef holds" Name is filled in by the func_def action, which is checked to establish the invariant
